@@ -205,6 +205,8 @@ fn gcd(a: i128, b: i128) -> i128 {
 
 #[derive(Clone, Debug, Default)]
 pub struct EfgOpts {
+    /// the unit payoffs are stated in (interior amounts are multiples of half a unit); 0 means 1
+    pub unit: f64,
     pub constant: f64,
     pub interior: bool,
     pub share_outcomes: bool,
@@ -218,6 +220,12 @@ pub struct EfgLine {
     pub infoset: u64,
     pub name: Option<String>,
     pub text: String,
+    /// number of children (the nodes follow in preorder)
+    pub arity: usize,
+    /// outcome carried by the node (0 = none)
+    pub outcome: u64,
+    /// the node's line ends with the payoff list of its outcome
+    pub has_pays: bool,
 }
 
 pub struct EfgText {
@@ -231,6 +239,8 @@ pub struct EfgText {
     pub shared_interior_outcomes: usize,
     /// outcome numbers carried by interior nodes
     pub interior_outcome_numbers: Vec<u64>,
+    /// payoffs (player one, player two) of every outcome number of the file
+    pub outcomes: BTreeMap<u64, (f64, f64)>,
     pub unnamed_infosets: usize,
 }
 
@@ -250,6 +260,7 @@ struct EfgCtx<'s, 'a> {
     pool: Vec<(u64, f64, f64, String, bool)>,
     /// every interior reference to a non-null outcome: (number, name allowed, defined by an interior node)
     slots: Vec<Slot>,
+    outcome_table: BTreeMap<u64, (f64, f64)>,
     shared_interior: usize,
 }
 
@@ -278,6 +289,7 @@ pub fn to_efg_text(tree: &T, opts: &EfgOpts, s: &mut Stream) -> EfgText {
         interior: 0,
         pool: Vec::new(),
         slots: Vec::new(),
+        outcome_table: BTreeMap::new(),
         shared_interior: 0,
     };
     // infoset numbers (arbitrary distinct positive numbers) and whether the infoset is named
@@ -331,20 +343,24 @@ pub fn to_efg_text(tree: &T, opts: &EfgOpts, s: &mut Stream) -> EfgText {
             };
         }
     }
-    let resolve = |line: &str| -> String {
-        match line.find("@@") {
-            None => line.to_string(),
-            Some(a) => {
-                let rest = &line[a + 2..];
-                let b = rest.find("@@").unwrap();
-                let k: usize = rest[..b].parse().unwrap();
-                format!("{}{}{}", &line[..a], slot_text[k], &rest[b + 2..])
-            }
-        }
+    let slot_of = |line: &str| -> Option<(usize, usize, usize)> {
+        let a = line.find("@@")?;
+        let rest = &line[a + 2..];
+        let b = rest.find("@@")?;
+        Some((rest[..b].parse().ok()?, a, a + 2 + b + 2))
     };
-    let lines: Vec<String> = ctx.lines.iter().map(|l| resolve(l)).collect();
-    for (m, l) in ctx.meta.iter_mut().zip(lines.iter()) {
-        m.text = l.clone();
+    let mut lines: Vec<String> = Vec::new();
+    for (line, m) in ctx.lines.iter().zip(ctx.meta.iter_mut()) {
+        let text = match slot_of(line) {
+            None => line.clone(),
+            Some((k, a, b)) => {
+                m.outcome = ctx.slots[k].num;
+                m.has_pays = slot_text[k].contains('{');
+                format!("{}{}{}", &line[..a], slot_text[k], &line[b..])
+            }
+        };
+        m.text = text.clone();
+        lines.push(text);
     }
     let lead = ["", "", "\n", " \n  "][ctx.s.below(4)];
     let trail = ["\n", "\n", "", "\n\n "][ctx.s.below(4)];
@@ -356,6 +372,7 @@ pub fn to_efg_text(tree: &T, opts: &EfgOpts, s: &mut Stream) -> EfgText {
         interior_outcomes: ctx.interior,
         shared_interior_outcomes: ctx.shared_interior,
         interior_outcome_numbers: ctx.slots.iter().map(|sl| sl.num).collect(),
+        outcomes: ctx.outcome_table.clone(),
         unnamed_infosets: unnamed,
     }
 }
@@ -384,11 +401,13 @@ fn efg_node(node: &T, ctx: &mut EfgCtx, acc1: f64, acc2: f64) {
                 ctx.slots.push(Slot { num, allow_name, terminal_outcome, pay });
                 return (format!("@@{}@@", ctx.slots.len() - 1), d1, d2);
             }
-            let d1 = (ctx.s.below(9) as f64 - 4.0) / 2.0;
-            let d2 = (ctx.s.below(9) as f64 - 4.0) / 2.0;
+            let unit = if ctx.opts.unit == 0.0 { 1.0 } else { ctx.opts.unit };
+            let d1 = (ctx.s.below(9) as f64 - 4.0) / 2.0 * unit;
+            let d2 = (ctx.s.below(9) as f64 - 4.0) / 2.0 * unit;
             let num = ctx.next_outcome;
             ctx.next_outcome += 1;
             let pay = efg_payoffs(ctx, d1, d2);
+            ctx.outcome_table.insert(num, (d1, d2));
             ctx.pool.push((num, d1, d2, pay.clone(), false));
             ctx.slots.push(Slot { num, allow_name, terminal_outcome: false, pay });
             (format!("@@{}@@", ctx.slots.len() - 1), d1, d2)
@@ -411,7 +430,8 @@ fn efg_node(node: &T, ctx: &mut EfgCtx, acc1: f64, acc2: f64) {
                         ctx.next_outcome += 1;
                         let text = efg_payoffs(ctx, l1, l2);
                         ctx.shared_outcomes.insert(key, (n, text.clone()));
-                        if l1.abs() <= 4.0 && l2.abs() <= 4.0 {
+                        let unit = if ctx.opts.unit == 0.0 { 1.0 } else { ctx.opts.unit };
+                        if l1.abs() <= 4.0 * unit && l2.abs() <= 4.0 * unit {
                             ctx.pool.push((n, l1, l2, text.clone(), true));
                         }
                         (n, text)
@@ -423,8 +443,9 @@ fn efg_node(node: &T, ctx: &mut EfgCtx, acc1: f64, acc2: f64) {
                 (n, efg_payoffs(ctx, l1, l2))
             };
             let name = if ctx.opts.share_outcomes { String::new() } else if ctx.s.bool() { format!(" {}", efg_label("leaf")) } else { String::new() };
+            ctx.outcome_table.insert(num, (l1, l2));
             ctx.lines.push(format!("t {} {}{} {}", efg_label(""), num, name, pay));
-            ctx.meta.push(EfgLine { kind: 't', player: 0, infoset: 0, name: None, text: ctx.lines.last().unwrap().clone() });
+            ctx.meta.push(EfgLine { kind: 't', player: 0, infoset: 0, name: None, text: ctx.lines.last().unwrap().clone(), arity: 0, outcome: num, has_pays: true });
         }
         T::Chance(label, outs) => {
             let num = match label {
@@ -476,7 +497,7 @@ fn efg_node(node: &T, ctx: &mut EfgCtx, acc1: f64, acc2: f64) {
                 .collect();
             let (outcome, d1, d2) = interior(ctx, false);
             ctx.lines.push(format!("c {} {} {{ {} }} {}", efg_label(""), num, probs.join(" "), outcome));
-            ctx.meta.push(EfgLine { kind: 'c', player: 0, infoset: num, name: None, text: ctx.lines.last().unwrap().clone() });
+            ctx.meta.push(EfgLine { kind: 'c', player: 0, infoset: num, name: None, text: ctx.lines.last().unwrap().clone(), arity: outs.len(), outcome: 0, has_pays: false });
             for (_, t) in outs {
                 efg_node(t, ctx, acc1 + d1, acc2 + d2);
             }
@@ -506,6 +527,9 @@ fn efg_node(node: &T, ctx: &mut EfgCtx, acc1: f64, acc2: f64) {
                 infoset: num,
                 name: if write_name { Some(name.clone()) } else { None },
                 text: ctx.lines.last().unwrap().clone(),
+                arity: acts.len(),
+                outcome: 0,
+                has_pays: false,
             });
             for i in order {
                 efg_node(&acts[i].1, ctx, acc1 + d1, acc2 + d2);
@@ -681,4 +705,31 @@ pub fn printed_profile(info: &Info, printed_name: &[BTreeMap<String, String>; 2]
 
 pub fn identity_names(info: &Info) -> [BTreeMap<String, String>; 2] {
     [0, 1].map(|p| info.infosets[p].keys().map(|k| (k.clone(), k.clone())).collect())
+}
+
+/// Per-leaf sums of the outcome payoffs along the path (player one, player two), computed from the
+/// writer's own line table and a (possibly edited) outcome table: what the file says the game pays
+pub fn efg_leaf_sums(lines: &[EfgLine], outcomes: &BTreeMap<u64, (f64, f64)>) -> Option<Vec<(f64, f64)>> {
+    fn rec(lines: &[EfgLine], pos: &mut usize, acc: (f64, f64), outcomes: &BTreeMap<u64, (f64, f64)>, out: &mut Vec<(f64, f64)>) -> Option<()> {
+        let line = lines.get(*pos)?;
+        *pos += 1;
+        let add = if line.outcome == 0 { (0.0, 0.0) } else { *outcomes.get(&line.outcome)? };
+        let acc = (acc.0 + add.0, acc.1 + add.1);
+        if line.kind == 't' {
+            out.push(acc);
+        } else {
+            for _ in 0..line.arity {
+                rec(lines, pos, acc, outcomes, out)?;
+            }
+        }
+        Some(())
+    }
+    let mut out = Vec::new();
+    let mut pos = 0;
+    rec(lines, &mut pos, (0.0, 0.0), outcomes, &mut out)?;
+    if pos == lines.len() {
+        Some(out)
+    } else {
+        None
+    }
 }
